@@ -408,6 +408,57 @@ Proof.
   exists u. repeat split; assumption.
 Qed.
 
+(** a claim on behalf that pays positions of two different owners is refused — for EVERY hub state,
+    i.e. whatever either owner has authorised *)
+Theorem claim_on_behalf_mixed_owners_refused : forall h caller owners reward a b,
+  In a owners -> In b owners -> a <> b -> is_ok (claim_on_behalf h caller owners reward) = false.
+Proof.
+  intros h caller owners reward a b Ha Hb Hne.
+  destruct (claim_on_behalf h caller owners reward) as [sends|] eqn:E; [|reflexivity].
+  destruct (claim_on_behalf_to_owner _ _ _ _ _ E) as (u & _ & _ & _ & Hall & _).
+  rewrite (Hall a Ha), (Hall b Hb) in Hne. contradiction.
+Qed.
+
+(** entering / staking on behalf of [user]: success means the caller is authorised by [user] and
+    every paid position records [user]; a payment recorded for anybody else, at ANY position, makes
+    the call fail for every caller and every hub state (the other owner's authorisations are never
+    consulted) *)
+Theorem enter_on_behalf_sound : forall h caller user owners,
+  enter_on_behalf h caller user owners = Ok tt ->
+  is_whitelisted h user caller = true /\ forall o, In o owners -> o = user.
+Proof.
+  intros h caller user owners H. unfold enter_on_behalf in H.
+  destruct (is_whitelisted h user caller); [|discriminate].
+  destruct (forallb (fun o => o =? user) owners) eqn:E; [|discriminate].
+  split; [reflexivity|]. intros o Hin. rewrite forallb_forall in E. apply Z.eqb_eq. exact (E o Hin).
+Qed.
+
+Theorem enter_on_behalf_foreign_refused : forall h caller user owners b,
+  In b owners -> b <> user -> enter_on_behalf h caller user owners = Err EPerm.
+Proof.
+  intros h caller user owners b Hin Hne. unfold enter_on_behalf.
+  destruct (is_whitelisted h user caller); [|reflexivity].
+  destruct (forallb (fun o => o =? user) owners) eqn:E; [|reflexivity].
+  rewrite forallb_forall in E. specialize (E b Hin). apply Z.eqb_eq in E. contradiction.
+Qed.
+
+(** the table's guard for these calls is that rule: all paid positions recorded for the user, and
+    the hub authorisation of the caller by the user *)
+Theorem guard_hub_owned_iff : forall open l f,
+  guard_ok open (GHubOwned l) f = true <->
+  (forall t, In t l -> t = OUser) /\ cf_hub_listed f = true /\ cf_hub_black f = false.
+Proof.
+  intros open l f. simpl. unfold all_owned_by_user, hub_authorised.
+  rewrite andb_true_iff, forallb_forall, andb_true_iff, negb_true_iff. split.
+  - intros (Hall & Hb & Hl). split; [|auto]. intros t Hin. specialize (Hall t Hin). destruct t; [reflexivity | discriminate].
+  - intros (Hall & Hl & Hb). split; [|auto]. intros t Hin. rewrite (Hall t Hin). reflexivity.
+Qed.
+
+Lemma foreign_payment_not_owned k o : 0 <= k <= 2 -> all_owned_by_user (payments_of (VForeignOwner k o)) = false.
+Proof.
+  intros Hk. assert (Hc : k = 0 \/ k = 1 \/ k = 2) by lia. destruct Hc as [Hc | [Hc | Hc]]; subst k; reflexivity.
+Qed.
+
 (** ================================================================== Part D: pause rules on the models *)
 
 Definition pair_user_fund_op (op : pop) : bool :=
@@ -632,6 +683,78 @@ Definition behalf_rule (r : row) (ro : role) (st : cstate) : bool :=
 Lemma behalf_rule_holds : all_cells behalf_rule = true.
 Proof. vm_compute. reflexivity. Qed.
 
+(** E4b. On-behalf calls paying several positions.  A row whose variant records a foreign owner at
+    ANY payment position is allowed for no role in no state; the all-own control row is allowed for
+    the authorised agent only.  The rows' guards are exactly [GHubOwned (payments_of variant)], and
+    every multi-payment on-behalf endpoint has the control row and one row per owner-carrying
+    position and per relation of the other owner to the caller. *)
+Definition is_foreign_variant (v : variant) : bool := match v with VForeignOwner _ _ => true | _ => false end.
+Definition is_multi_variant (v : variant) : bool :=
+  match v with VForeignOwner _ _ | VMultiOwn => true | _ => false end.
+
+Definition foreign_rule (r : row) (ro : role) (st : cstate) : bool :=
+  if is_foreign_variant (row_variant r) then negb (row_allowed r ro st)
+  else if is_multi_variant (row_variant r) then (if row_allowed r ro st then role_eqb ro RAgentAuth else true)
+  else true.
+
+Lemma foreign_rule_holds : all_cells foreign_rule = true.
+Proof. vm_compute. reflexivity. Qed.
+
+Definition tag_eqb (a b : owner_tag) : bool :=
+  match a, b with
+  | OUser, OUser => true
+  | OOther x, OOther y => other_auth_id x =? other_auth_id y
+  | _, _ => false
+  end.
+Fixpoint tags_eqb (a b : list owner_tag) : bool :=
+  match a, b with
+  | [], [] => true
+  | x :: a', y :: b' => tag_eqb x y && tags_eqb a' b'
+  | _, _ => false
+  end.
+
+Definition multi_row_wellformed (r : row) : bool :=
+  if is_multi_variant (row_variant r) then
+    kind_eqb (c_kind (row_class r)) KOnBehalf &&
+    match c_guard (row_class r) with
+    | GHubOwned l => tags_eqb l (payments_of (row_variant r))
+    | _ => false
+    end &&
+    existsb (fun m => contract_eqb (fst (fst m)) (row_contract r) && String.eqb (snd (fst m)) (row_endpoint r)
+                      && match row_variant r with
+                         | VForeignOwner k _ => existsb (Z.eqb k) (snd m)
+                         | _ => true
+                         end) multi_payment_on_behalf
+  else true.
+
+Lemma multi_rows_wellformed_b : forallb multi_row_wellformed access_table = true.
+Proof. vm_compute. reflexivity. Qed.
+
+Definition has_row (c : contract) (e : string) (v : variant) : bool :=
+  match lookup c e v with Some _ => true | None => false end.
+
+Definition multi_complete (m : contract * string * list Z) : bool :=
+  let c := fst (fst m) in let e := snd (fst m) in
+  has_row c e VPlain && has_row c e VMultiOwn &&
+  forallb (fun k => forallb (fun o => has_row c e (VForeignOwner k o)) [OAlsoAuthorised; ORevoked; ONeverAuthorised]) (snd m).
+
+Lemma multi_complete_b : forallb multi_complete multi_payment_on_behalf = true.
+Proof. vm_compute. reflexivity. Qed.
+
+(** every KOnBehalf row guarded by the hub is either single-payment (claimDualYieldOnBehalf) or
+    listed in [multi_payment_on_behalf] — no hub-guarded endpoint is left without its variants *)
+Definition hub_row_listed (r : row) : bool :=
+  match c_guard (row_class r), row_variant r with
+  | GHub, VPlain =>
+      existsb (fun m => contract_eqb (fst (fst m)) (row_contract r) && String.eqb (snd (fst m)) (row_endpoint r))
+              multi_payment_on_behalf
+      || (contract_eqb (row_contract r) CStakingProxy && String.eqb (row_endpoint r) "claimDualYieldOnBehalf")
+  | _, _ => true
+  end.
+
+Lemma hub_rows_listed_b : forallb hub_row_listed access_table = true.
+Proof. vm_compute. reflexivity. Qed.
+
 (** E5. Contract-to-contract entry points are allowed for configured counterparties only. *)
 Definition entry_rule (r : row) (ro : role) (st : cstate) : bool :=
   if is_kind KContractEntry r then (if row_allowed r ro st then is_party ro else true) else true.
@@ -803,6 +926,46 @@ Proof.
   unfold lifecycle_rule, is_kind in H. rewrite Hk in H. simpl in H. apply negb_true_iff in H. exact H.
 Qed.
 
+(** a foreign-owner payment at any position: disallowed for every role in every state *)
+Theorem foreign_owner_payment_refused : forall r ro st k o,
+  In r access_table -> In ro (roles_of (row_contract r)) -> In st (states_of (row_contract r)) ->
+  row_variant r = VForeignOwner k o -> row_allowed r ro st = false.
+Proof.
+  intros r ro st k o Hr Hro Hst Hv.
+  pose proof (all_cells_spec _ foreign_rule_holds r ro st Hr Hro Hst) as H.
+  unfold foreign_rule in H. rewrite Hv in H. simpl in H. apply negb_true_iff in H. exact H.
+Qed.
+
+Theorem multi_own_only_authorised_agent : forall r ro st,
+  In r access_table -> In ro (roles_of (row_contract r)) -> In st (states_of (row_contract r)) ->
+  row_variant r = VMultiOwn -> row_allowed r ro st = true -> ro = RAgentAuth.
+Proof.
+  intros r ro st Hr Hro Hst Hv Ha.
+  pose proof (all_cells_spec _ foreign_rule_holds r ro st Hr Hro Hst) as H.
+  unfold foreign_rule in H. rewrite Hv in H. simpl in H. rewrite Ha in H.
+  destruct ro as [| | | | | | |p]; try discriminate; try reflexivity. destruct p; discriminate.
+Qed.
+
+Theorem multi_rows_wellformed : forall r, In r access_table -> multi_row_wellformed r = true.
+Proof. intros r H. pose proof multi_rows_wellformed_b as Hb. rewrite forallb_forall in Hb. exact (Hb r H). Qed.
+
+Theorem multi_payment_rows_complete : forall c e ks k o,
+  In (c, e, ks) multi_payment_on_behalf -> In k ks ->
+  lookup c e VMultiOwn <> None /\ lookup c e (VForeignOwner k o) <> None.
+Proof.
+  intros c e ks k o Hin Hk. pose proof multi_complete_b as Hb. rewrite forallb_forall in Hb.
+  specialize (Hb _ Hin). unfold multi_complete, has_row in Hb. cbn [fst snd] in Hb.
+  apply andb_true_iff in Hb. destruct Hb as [Hb Hf]. apply andb_true_iff in Hb. destruct Hb as [_ Hm].
+  rewrite forallb_forall in Hf. specialize (Hf k Hk). rewrite forallb_forall in Hf.
+  split.
+  - destruct (lookup c e VMultiOwn); [discriminate | discriminate Hm].
+  - assert (Ho : In o [OAlsoAuthorised; ORevoked; ONeverAuthorised]) by (destruct o; simpl; auto).
+    specialize (Hf o Ho). destruct (lookup c e (VForeignOwner k o)); [discriminate | discriminate Hf].
+Qed.
+
+Theorem hub_rows_listed : forall r, In r access_table -> hub_row_listed r = true.
+Proof. intros r H. pose proof hub_rows_listed_b as Hb. rewrite forallb_forall in Hb. exact (Hb r H). Qed.
+
 (** the verdict is the rule: allowed iff the guard passes for the caller's facts and the state
     requirement holds (so the table layer is an instance of the primitives of Part A) *)
 Theorem allowed_iff : forall cl c ro st,
@@ -814,11 +977,11 @@ Proof.
     split; intros H; try discriminate; try (destruct H; discriminate); auto.
 Qed.
 
-(** bounds of the finite checks, stated so that the quantifier domains are visible: 587 rows,
-    563 inventoried functions, 11926 (row, role, state) cells *)
+(** bounds of the finite checks, stated so that the quantifier domains are visible: 648 rows,
+    563 inventoried functions, 13230 (row, role, state) cells *)
 Definition table_rows : Z := Z.of_nat (length access_table).
 Definition inventory_rows : Z := Z.of_nat (length inventory).
 Definition table_cells : Z := fold_right (fun r n => n + Z.of_nat (length (cells_of r))) 0 access_table.
 
-Lemma table_dimensions : table_rows = 587 /\ inventory_rows = 563 /\ table_cells = 11926.
+Lemma table_dimensions : table_rows = 648 /\ inventory_rows = 563 /\ table_cells = 13230.
 Proof. vm_compute. repeat split. Qed.
